@@ -187,7 +187,51 @@ Inductive unstarted_outcome := AllQueued (n : nat) | BlockedForever.
 Definition run_unstarted (prog : list task) : unstarted_outcome :=
   if Nat.leb (length prog) chan_capacity then AllQueued (length prog) else BlockedForever.
 
-(* Request.EnableDump (repaired): a request-level dumper is never started, so its deliveries
-   are synchronous whatever Async says; Transport.EnableDump starts the client-level one. *)
-Definition effective_async (level : nat) (o : options) : bool :=
-  match level with 0 => o_async o | _ => false end.
+(* Dumper.DumpTo as repaired (fix 0354844): a chunk is queued only when Async() AND Start is
+   draining the channel (atomic flag `running`, set by Start, cleared when Start returns);
+   otherwise it is written at once.  Operations on one dumper, as the goroutines may interleave:
+     ADump t    a DumpTo call of the stacks (program order)
+     ADrain     the Start goroutine takes one task from the channel and writes it
+     AStart     Start begins draining (go dump.Start() of Transport.EnableDump; never for a
+                request-level dumper)
+     AStopped   Start returns; it does so after having received the nil that Stop sent, i.e.
+                after it has written everything queued before (enabled only on an empty queue)
+   State: running flag, queue, tasks written so far. *)
+Inductive aop := ADump (t : task) | ADrain | AStart | AStopped.
+
+Record dstate := mkD { d_running : bool; d_queue : list task; d_out : list task }.
+
+Definition step_op (async : bool) (st : dstate) (op : aop) : dstate :=
+  match op with
+  | ADump t =>
+      if async && d_running st then mkD (d_running st) (d_queue st ++ [t]) (d_out st)
+      else mkD (d_running st) (d_queue st) (d_out st ++ [t])
+  | ADrain =>
+      match d_queue st with
+      | t :: q => if d_running st then mkD true q (d_out st ++ [t]) else st
+      | [] => st
+      end
+  | AStart => mkD true (d_queue st) (d_out st)
+  | AStopped =>
+      match d_queue st with
+      | [] => mkD false [] (d_out st)
+      | _ => st
+      end
+  end.
+
+Definition run_ops (async : bool) (ops : list aop) : dstate :=
+  fold_left (step_op async) ops (mkD false [] []).
+
+Definition dumped_tasks (ops : list aop) : list task :=
+  flat_map (fun op => match op with ADump t => [t] | _ => [] end) ops.
+
+(* pinned DumpTo: queues whenever Async(), whether or not anybody drains *)
+Definition step_op_pinned (async : bool) (st : dstate) (op : aop) : dstate :=
+  match op with
+  | ADump t =>
+      if async then mkD (d_running st) (d_queue st ++ [t]) (d_out st)
+      else mkD (d_running st) (d_queue st) (d_out st ++ [t])
+  | _ => step_op async st op
+  end.
+Definition run_ops_pinned (async : bool) (ops : list aop) : dstate :=
+  fold_left (step_op_pinned async) ops (mkD false [] []).
